@@ -62,7 +62,7 @@ TraceInit ==
   /\ gp = [pc |-> "idle", sel |-> {}, b |-> [t \in w.T |-> "U"], todo |-> {}, plan |-> {},
            mtrk |-> [t \in w.T |-> NoJob], mhsh |-> [t \in w.T |-> NoRec], hashing |-> FALSE,
            fs0 |-> [f \in AllIn(w) \cup AllOut(w) |-> Missing]]
-  /\ conv = [ok |-> FALSE, sel |-> {}]
+  /\ conv = [ok |-> FALSE, sel |-> {}, shelf |-> [t \in w.T |-> [away |-> FALSE, trk |-> NoJob, hsh |-> NoRec]]]
   /\ cnt = [env |-> 0, faults |-> 0, cmds |-> 0]
   /\ hist = << >>
 
@@ -252,16 +252,19 @@ TCancel ==
 
 (* environment and scheduler steps are imposed by the driver: no observation *)
 TEnv ==
-  /\ Ev.act \in {"EditSource", "DeleteOutput", "EditSpec", "SetUseHash", "Rename"}
+  /\ Ev.act \in {"EditSource", "DeleteOutput", "EditSpec", "SetUseHash", "Rename", "RenameBack"}
   /\ IF \/ Ev.act = "EditSource" /\ ~(Ev.f \in Unresolved(W3) /\ fs[Ev.f] # Missing)
         \/ Ev.act = "DeleteOutput" /\ ~(Ev.f \in AllOut(W3) /\ fs[Ev.f] # Missing)
         \/ Ev.act = "SetUseHash" /\ Ev.v = useHash
+        \/ Ev.act = "Rename" /\ conv.shelf[Ev.t].away
+        \/ Ev.act = "RenameBack" /\ ~conv.shelf[Ev.t].away
      THEN Stuck("C00_env_inapplicable")
      ELSE /\ dr' = FALSE
           /\ \/ Ev.act = "EditSource" /\ EditSource(Ev.f)
              \/ Ev.act = "DeleteOutput" /\ DeleteOutput(Ev.f)
              \/ Ev.act = "EditSpec" /\ EditSpec(Ev.t)
              \/ Ev.act = "Rename" /\ Rename(Ev.t)
+             \/ Ev.act = "RenameBack" /\ RenameBack(Ev.t)
              \/ Ev.act = "SetUseHash" /\ SetUseHash(Ev.v)
           /\ Judge({})
 
